@@ -94,18 +94,12 @@ def run(prog, chk, tier):
         lf = lin_of(sh, [lambda s: "pal" if isinstance(s, tuple) and s[0] == "call" and s[1] == PAL else None])
         okp = lf == ({"pal": 1}, 4)
     chk.ob("multiple-of-four", "padded_len() = 4 + padded_attr_len(length())", okp, how="origin (linear form)")
-    # ---- (b) the length field
+    # ---- (b) the length field: read off the content of the output buffer after write_into (E2, content tracking)
+    from rules import content_e2 as CE
     from dtable import instrumented_body
     b, ups = instrumented_body(prog, MB + "write_into")
     og = Origins(prog, b)
-    wr = [(bi, t) for bi, t in b.calls() if og.callee_name(t).endswith("ByteOrder>::write_u16")]
-    ok = len(wr) == 1
-    lf = None
-    if ok:
-        is_len_field = lambda s: isinstance(s, tuple) and s[0] == "call" and re.search(r"IndexMut<std::ops::Range<usize>>", s[1]) and s[2][1][0] == "agg" and s[2][1][2] == (("const", 2), ("const", 4))
-        lf = lin_of(shape(og.operand(wr[0][1]["args"][1])), [lambda s: "byte_len" if isinstance(s, tuple) and s[0] == "call" and s[1].endswith("::byte_len") else None])
-        ok = lf == ({"byte_len": 1}, -20) and is_len_field(shape(og.operand(wr[0][1]["args"][0])))
-    chk.ob("length-field", "write_into stores byte_len() - 20 at [2..4]", ok, detail="value %r" % (lf,), how="origin (linear form)")
+    CE.header_clauses(prog, chk, {"length-field"})
     # ---- (c) contiguous, in order, at accumulated offsets
     it3 = Interp(prog, M, INVARIANTS)
     it3.local_models["stun_types::message::AttrOrRaw::<'a>::write_into"] = model_attr_write_into
